@@ -98,7 +98,17 @@ func (in *Interp) step(st *State, fr *Frame, ins ssa.Instruction) {
 			hiB = int64(in.Cfg.MaxAlloc)
 		}
 		n := in.concretize(st, ln, 0, hiB)
-		c := in.concretize(st, cp, n, hiB)
+		var c int64
+		if cv, isC := cp.ConstInt64(); isC {
+			c = cv
+		} else if _, known := st.Concr[cp.ID]; known || x.Len == x.Cap {
+			c = in.concretize(st, cp, n, hiB)
+		} else {
+			// make(T, len, cap) with a symbolic capacity hint: the hint only affects when append reallocates,
+			// which a freshly made (unaliased) slice cannot observe; use cap = len.
+			in.stubSeen["assume: symbolic capacity hints of make() are ignored (cap = len)"] = true
+			c = n
+		}
 		if in.Cfg.MaxAlloc > 0 && c > int64(in.Cfg.MaxAlloc) {
 			in.stubSeen[fmt.Sprintf("assume: allocations of at most %d elements (larger ones are outside the claim)", in.Cfg.MaxAlloc)] = true
 			panic(pathEnd{"cut"})
